@@ -77,18 +77,34 @@ def get_trail(obj: object) -> Trail:
 
 BaseExcT = TypeVar("BaseExcT", bound=BaseException)
 
+
+def _render_trail(trail: Trail) -> str:
+    try:
+        return repr(list(trail))
+    except ValueError:
+        # repr of an element can fail, e.g. an int key exceeding the limit of digits for integer string conversion
+        return "[" + ", ".join(_render_trail_element(element) for element in trail) + "]"
+
+
+def _render_trail_element(element: TrailElement) -> str:
+    try:
+        return repr(element)
+    except ValueError:
+        return f"<{type(element).__name__} object>"
+
+
 if HAS_NATIVE_EXC_GROUP:
     def render_trail_as_note(exc: BaseExcT) -> BaseExcT:
         trail = get_trail(exc)
         if trail:
-            exc.add_note(f"Exception was caused at {list(trail)}")
+            exc.add_note(f"Exception was caused at {_render_trail(trail)}")
         return exc
 else:
     def render_trail_as_note(exc: BaseExcT) -> BaseExcT:
         trail = get_trail(exc)
         if trail:
             if hasattr(exc, "__notes__"):
-                exc.__notes__.append(f"Exception was caused at {list(trail)}")
+                exc.__notes__.append(f"Exception was caused at {_render_trail(trail)}")
             else:
-                exc.__notes__ = [f"Exception was caused at {list(trail)}"]
+                exc.__notes__ = [f"Exception was caused at {_render_trail(trail)}"]
         return exc
